@@ -19,14 +19,24 @@ const STMTS = {
   tpl_hooked: 'x = `${a}!`;',
   arrow_expr: 'y = () => 1;',
   plain_call: 'h(a);',
-  nested: 'x = a.concat(b + c, `${a}`);'
+  nested: 'x = a.concat(b + c, `${a}`);',
+  triple_plus: 'x = a + b + c + a;',
+  triple_trim: 'x = a.trim().trim().trim();',
+  triple_plus_assign: 'x += a; x += b; x += c;',
+  four_tpl: 'x = `${a}` + `${b}${c}` + `${`${a}`}`;'
 }
 const VERBOSITIES = [undefined, 'OFF', 'MANDATORY', 'INFORMATION', 'DEBUG', 'debug']
 
 module.exports = mk({
   id: 'C15',
-  families: ['A', 'C'],
+  families: ['A', 'C', 'M'],
   familyOpts: () => ({}),
+  // the grammar families are judged under DEBUG verbosity (per-tag breakdown is the richer oracle)
+  requests (leaf) {
+    const S = require('../lib/static_driver')
+    const cfg = leaf.fam === 'perm' ? leaf.config : Object.assign({}, S.leafConfig(leaf), { telemetryVerbosity: 'DEBUG' })
+    return [{ config: cfg, file: S.leafFile(leaf), code: S.leafCode(leaf), want: ['astIn', 'astOut'] }]
+  },
   extra: async (tier) => {
     // all ordered selections of L statements (permutations without repetition) x verbosity
     const names = Object.keys(STMTS)
@@ -50,7 +60,7 @@ module.exports = mk({
     if (a.status !== 'ok' || a.inputUnparsable || a.contentUnparsable) return
     const m = resp.metrics
     if (!m) { v('no-metrics', 'none', 'result carries no metrics'); return }
-    const verb = String(config.telemetryVerbosity === undefined ? 'INFORMATION' : config.telemetryVerbosity).toUpperCase()
+    const verb = leaf.fam === 'perm' ? String(config.telemetryVerbosity === undefined ? 'INFORMATION' : config.telemetryVerbosity).toUpperCase() : 'DEBUG'
     const hooks = a.erasure ? a.erasure.hooks.length : 0
     res.nontrivial = hooks > 0
     const file = leaf.file || '/p/app.js'
